@@ -279,6 +279,58 @@ func genNsqdRoutes(repo string) (string, error) {
 		return "", fmt.Errorf("GetTopicChannelArgs not found")
 	}
 
+	// call-order summaries: for each handler / helper of nsqd/http.go, the calls that matter
+	// to C10 in order of first occurrence (source order)
+	interesting := map[string]bool{
+		"io.ReadAll": true, "io.LimitReader": true, "bufio.NewReader": true, "ReadBytes": true,
+		"getTopicFromQuery": true, "getExistingTopicFromQuery": true, "http_api.NewReqParams": true,
+		"http_api.GetTopicChannelArgs": true, "url.ParseQuery": true, "protocol.IsValidTopicName": true,
+		"GetTopic": true, "GetExistingTopic": true, "DeleteExistingTopic": true, "GetChannel": true,
+		"GetExistingChannel": true, "DeleteExistingChannel": true, "Empty": true, "Pause": true, "UnPause": true,
+		"PutMessage": true, "PutMessages": true, "readMPUB": true, "PersistMetadata": true,
+		"strconv.ParseInt": true, "strconv.Atoi": true, "msToDuration": true, "NewMessage": true,
+		"json.Unmarshal": true, "lg.ParseLogLevel": true, "swapOpts": true, "getOptByCfgName": true,
+		"IsHealthy": true, "os.Hostname": true, "FormValue": true, "GetStats": true,
+	}
+	var calls []string
+	for _, d := range f.Decls {
+		fn, ok := d.(*ast.FuncDecl)
+		if !ok || fn.Body == nil {
+			continue
+		}
+		if !(strings.HasPrefix(fn.Name.Name, "do") || strings.HasSuffix(fn.Name.Name, "FromQuery") ||
+			fn.Name.Name == "pingHandler" || fn.Name.Name == "setBlockRateHandler" || fn.Name.Name == "freeMemory") {
+			continue
+		}
+		seen := map[string]bool{}
+		var order []string
+		ast.Inspect(fn.Body, func(n ast.Node) bool {
+			c, ok := n.(*ast.CallExpr)
+			if !ok {
+				return true
+			}
+			name := ""
+			switch fx := c.Fun.(type) {
+			case *ast.Ident:
+				name = fx.Name
+			case *ast.SelectorExpr:
+				name = fx.Sel.Name
+				if id, ok := fx.X.(*ast.Ident); ok {
+					full := id.Name + "." + fx.Sel.Name
+					if interesting[full] {
+						name = full
+					}
+				}
+			}
+			if interesting[name] && !seen[name] {
+				seen[name] = true
+				order = append(order, hrCoqStr(name))
+			}
+			return true
+		})
+		calls = append(calls, fmt.Sprintf("(%s, [%s])", hrCoqStr(fn.Name.Name), strings.Join(order, "; ")))
+	}
+
 	var sb strings.Builder
 	sb.WriteString("From Coq Require Import String List ZArith.\nImport ListNotations.\nLocal Open Scope string_scope.\n\n")
 	sb.WriteString("(* nsqd/http.go newHTTPServer: (method, path, handler, decorators) *)\n")
@@ -292,6 +344,10 @@ func genNsqdRoutes(repo string) (string, error) {
 	sb.WriteString("(* every http_api.Err literal of nsqd/http.go: (function, status, token) *)\n")
 	sb.WriteString("Definition nsqd_http_errs : list (string * Z * string) := [\n  ")
 	sb.WriteString(strings.Join(errs, ";\n  "))
+	sb.WriteString("\n].\n\n")
+	sb.WriteString("(* per handler of nsqd/http.go: the calls that matter, in order of first occurrence *)\n")
+	sb.WriteString("Definition nsqd_http_calls : list (string * list string) := [\n  ")
+	sb.WriteString(strings.Join(calls, ";\n  "))
 	sb.WriteString("\n].\n\n")
 	sb.WriteString("Definition nsqd_bool_params : list (string * bool) := [")
 	sb.WriteString(strings.Join(bools, "; "))
